@@ -60,6 +60,8 @@ type Case struct {
 	Oracle     []OracleFail `json:"oracle"`
 	Judged     bool         `json:"judged"` // the direct oracle had an expectation for this case
 	Nontrivial bool         `json:"nontrivial"`
+	HTTP       *HttpInfo    `json:"http,omitempty"`
+	Stream     *StreamInfo  `json:"stream,omitempty"`
 }
 
 func hx(s string) string { return hex.EncodeToString([]byte(s)) }
@@ -78,61 +80,66 @@ func runImpl(input []byte, mult int64) (rows []RowObs, isErr bool) {
 		}
 		t1 := time.Now().UnixNano()
 		for i := range rs {
-			r := &rs[i]
-			ro := RowObs{Name: hx(r.Name), Tags: [][2]string{}, Fields: []FieldObs{}}
-			for _, t := range r.Tags {
-				ro.Tags = append(ro.Tags, [2]string{hx(t.Key), hx(t.Value)})
-			}
-			for j := range r.Fields {
-				f := &r.Fields[j]
-				fo := FieldObs{K: hx(f.Key), T: f.Type, Bits: math.Float64bits(f.NumValue), S: hx(f.StrValue)}
-				var col record.ColVal
-				var size int64
-				// what the column finally holds replaces the in-flight value in the observation
-				if err := record.AppendFieldToCol(&col, f, &size); err != nil {
-					fo.T = -1
-				} else {
-					switch f.Type {
-					case influx.Field_Type_Int:
-						if v := col.IntegerValues(); len(v) == 1 {
-							fo.Stored = v[0]
-						} else {
-							fo.T = -1
-						}
-					case influx.Field_Type_Float:
-						if v := col.FloatValues(); len(v) == 1 {
-							fo.Bits = math.Float64bits(v[0])
-						} else {
-							fo.T = -1
-						}
-					case influx.Field_Type_Boolean:
-						if v := col.BooleanValues(); len(v) == 1 {
-							fo.Bits = 0
-							if v[0] {
-								fo.Bits = math.Float64bits(1)
-							}
-						} else {
-							fo.T = -1
-						}
-					case influx.Field_Type_String:
-						if v, isNil := col.StringValueSafe(0); !isNil {
-							fo.S = hx(v)
-						} else {
-							fo.T = -1
-						}
-					}
-				}
-				ro.Fields = append(ro.Fields, fo)
-			}
-			ts := r.Timestamp
-			if !(ts >= t0-int64(time.Second) && ts <= t1+int64(time.Second)) {
-				ro.Ts = &ts
-			}
-			rows = append(rows, ro)
+			rows = append(rows, obsRow(&rs[i], t0, t1))
 		}
 	}
 	uw.Unmarshal()
 	return
+}
+
+// obsRow: what one parsed row finally puts into the columns (the real float64 -> column conversion), with every
+// string copied out of the request buffer. A timestamp within [t0-1s, t1+1s] counts as the server's clock.
+func obsRow(r *influx.Row, t0, t1 int64) RowObs {
+	ro := RowObs{Name: hx(r.Name), Tags: [][2]string{}, Fields: []FieldObs{}}
+	for _, t := range r.Tags {
+		ro.Tags = append(ro.Tags, [2]string{hx(t.Key), hx(t.Value)})
+	}
+	for j := range r.Fields {
+		f := &r.Fields[j]
+		fo := FieldObs{K: hx(f.Key), T: f.Type, Bits: math.Float64bits(f.NumValue), S: hx(f.StrValue)}
+		var col record.ColVal
+		var size int64
+		// what the column finally holds replaces the in-flight value in the observation
+		if err := record.AppendFieldToCol(&col, f, &size); err != nil {
+			fo.T = -1
+		} else {
+			switch f.Type {
+			case influx.Field_Type_Int:
+				if v := col.IntegerValues(); len(v) == 1 {
+					fo.Stored = v[0]
+				} else {
+					fo.T = -1
+				}
+			case influx.Field_Type_Float:
+				if v := col.FloatValues(); len(v) == 1 {
+					fo.Bits = math.Float64bits(v[0])
+				} else {
+					fo.T = -1
+				}
+			case influx.Field_Type_Boolean:
+				if v := col.BooleanValues(); len(v) == 1 {
+					fo.Bits = 0
+					if v[0] {
+						fo.Bits = math.Float64bits(1)
+					}
+				} else {
+					fo.T = -1
+				}
+			case influx.Field_Type_String:
+				if v, isNil := col.StringValueSafe(0); !isNil {
+					fo.S = hx(v)
+				} else {
+					fo.T = -1
+				}
+			}
+		}
+		ro.Fields = append(ro.Fields, fo)
+	}
+	ts := r.Timestamp
+	if !(ts >= t0-int64(time.Second) && ts <= t1+int64(time.Second)) {
+		ro.Ts = &ts
+	}
+	return ro
 }
 
 // ---------------------------------------------------------------------------------------------
@@ -914,7 +921,7 @@ func main() {
 	}
 	r := gen.FromEnv(6)
 	for k := 0; k < n; k++ {
-		switch x := r.Intn(22); {
+		switch x := r.Intn(25); {
 		case x < 9:
 			caseValid(r, idx)
 		case x < 13:
@@ -925,11 +932,14 @@ func main() {
 			caseMutated(r, idx)
 		case x < 20:
 			caseRawString(r, idx)
-		default:
+		case x < 22:
 			caseStream(r, idx)
+		default:
+			caseHTTP(r, idx)
 		}
 		idx++
 	}
+	httpTeardown()
 	idx = streamSweep(idx)
 	fmt.Printf("{\"done\":%d}\n", idx)
 }
